@@ -97,6 +97,12 @@ def run(repo, rep, tier):
     _census(repo, rep)
     _dynamic_python(repo, rep)
     _stamp(repo, rep)
+    # a well-formed statement is never rejected, a malformed one is: the
+    # statement patterns and the part splitter (C01 owns them)
+    from . import c01 as _c01
+    L.borrow(repo, rep, "R11.5", "C01", _c01.statement_patterns,
+             ("statement-space", "statement-expression-width",
+              "split-parts-steps"), minimum=3)
     L.state_rule(repo, rep)
 
 
